@@ -33,17 +33,17 @@ ROWS = [
      "usize sum bounded by the number of entries in the tree", None, 1),
     (r"InsertReferencesProcessor as .*::map::\{closure#0\}$", r"^Add\((?P<c>%s),Sub\((?P<a>%s),(?P=c)\)\.0\):usize$" % (V, V),
      "cursor + (pos - cursor) = pos, a byte offset into the file", None, 1),
-    (r"InsertReferencesProcessor as .*::map::\{closure#0\}$", r"^index\[Range<usize\]\(as_bytes\(file_contents\),Range\{(?P<c>%s),(?P<a>character\(position\(%s\)\)|%s)\}\)$" % (V, V, V),
+    (r"InsertReferencesProcessor as .*::map::\{closure#0\}$", r"^index\[Range<usize\]\(as_bytes\(%s\),Range\{(?P<c>%s),(?P<a>character\(position\(%s\)\)|%s)\}\)$" % (V, V, V, V),
      "cursor <= insertion offset by the dominating guard; the offset is a span offset of this very text, so <= len", "lt_guard", 1),
-    (r"InsertReferencesProcessor as .*::map::\{closure#0\}$", r"^index\[Range<usize\]\(as_bytes\(file_contents\),Range\{(?P<a>%s),(?P<c>len\(file_contents\)|%s)\}\)$" % (V, V),
+    (r"InsertReferencesProcessor as .*::map::\{closure#0\}$", r"^index\[Range<usize\]\(as_bytes\(%s\),Range\{(?P<a>%s),(?P<c>len\(%s\)|%s)\}\)$" % (V, V, V, V),
      "executed only when cursor < len(file_contents)", "lt_true", 1),
     (r"Context::cache_next_reference_id$", r"^insert_str\(%s,0," % V,
      "index 0 is always a char boundary", None, 1),
-    (r"code_parser::check_for_boolean_directive$", r"^index\[RangeFrom<usize\]\(code,RangeFrom\{subject_pos\}\)$",
+    (r"code_parser::check_for_boolean_directive$", r"^index\[RangeFrom<usize\]\(%s,RangeFrom\{%s\}\)$" % (V, V),
      "subject_pos is the start() of a pest span over `code` at both call sites (C14-R4): a char boundary <= len", "directive_callers", 1),
-    (r"code_parser::check_for_boolean_directive$", r"^Add\(subject_pos,map_or\(next\(chars\(index\(code\)\)\)\)\):usize$",
+    (r"code_parser::check_for_boolean_directive$", r"^Add\(%s,map_or\(next\(chars\(index\(%s\)\)\)\)\):usize$" % (V, V),
      "offset + length of one char of the same string: <= len", None, 1),
-    (r"code_parser::check_for_boolean_directive$", r"^index\[RangeTo<usize\]\(code,RangeTo\{(%s|Add\(subject_pos,map_or\(next\(chars\(index\(code\)\)\)\)\)\.0)\}\)$" % V,
+    (r"code_parser::check_for_boolean_directive$", r"^index\[RangeTo<usize\]\(%s,RangeTo\{(%s|Add\(%s,map_or\(next\(chars\(index\(%s\)\)\)\)\)\.0)\}\)$" % (V, V, V, V),
      "end = subject_pos + len_utf8(first char at subject_pos): a char boundary <= len", "char_boundary_end", 1),
     (r"rust_log_ref_finder::find$", r"^panic\('internal error: entered unrea",
      "the `_ => unreachable!()` arm of the pair walk: the grammar produces only log_macro / EOI under `file` (C17-R2)", "walk_covers", 1),
